@@ -64,6 +64,8 @@ def required(tier):
   n = 1 if q else 8
   return {'C20.cfm.reconstruct': 150 * n, 'C20.cfm.nonpsd-rejected': 60 * n,
           'C20.cfm.asym-rejected': 20 * n,
+          'C20.sdp.rejects': 30 * n, 'C20.sdp.definite-flag': 100 * n,
+          'C20.pinv': 100 * n,
           'C20.minit.identity': 10 * n, 'C20.minit.covariance': 20 * n,
           'C20.minit.random-reproducible': 10 * n,
           'C20.minit.array-as-given': 10 * n,
@@ -127,7 +129,7 @@ def _cfm(spec, j):
   from metric_learn.exceptions import NonPSDError  # noqa
   rng = rng_for('c20cfm', spec['seed'], spec['i'])
   classes = ['pd', 'wide', 'lowrank', 'zero', 'near', 'near', 'indefinite',
-             'diag', 'diag-neg', 'asym-small', 'asym-large']
+             'diag', 'diag-neg', 'diag-tiny', 'asym-small', 'asym-large']
   for t in range(spec['n']):
     d = int(rng.randint(1, 9))
     tol = [None, 0.0, 1e-10, 1e-3][int(rng.randint(4))]
@@ -138,6 +140,12 @@ def _cfm(spec, j):
     elif klass == 'diag-neg':
       M = np.diag(10.0 ** rng.uniform(-2, 2, size=d))
       M[0, 0] = -M.max() * 10.0 ** rng.uniform(-8, 0)
+    elif klass == 'diag-tiny':
+      # exact spectrum with one entry far below / around the default
+      # tolerance, of either sign: decides tol = 0 vs tol = None exactly
+      M = np.diag(10.0 ** rng.uniform(-2, 2, size=d))
+      M[0, 0] = rng.choice([-1.0, 1.0]) * M.max() * \
+          10.0 ** rng.uniform(-30, -13)
     elif klass.startswith('asym'):
       M = sym_matrix(rng, max(d, 2), 'pd', tol)
       delta = 1e-12 if klass == 'asym-small' else 1e-3
@@ -148,6 +156,23 @@ def _cfm(spec, j):
     r, e = _call(_util.components_from_metric, M, tol)
     psd.judge_components_from_metric(j, M0, tol, r, e, mon='C20.cfm')
     j.check('C20.cfm.input-unmodified', np.array_equal(M, M0), {})
+    # the two documented eigen-helpers on an exact spectrum
+    n_ = int(rng.randint(1, 9))
+    wv = 10.0 ** rng.uniform(-3, 3, size=n_)
+    kind_ = t % 4
+    if kind_ == 1:
+      wv[0] = rng.choice([-1.0, 1.0]) * wv.max() * 10.0 ** rng.uniform(-30, -13)
+    elif kind_ == 2:
+      wv[0] = -wv.max() * 10.0 ** rng.uniform(-12, 0)
+    elif kind_ == 3:
+      wv[:int(rng.randint(1, n_ + 1))] = 0.0
+    wv = np.sort(wv)
+    r2, e2 = _call(_util._check_sdp_from_eigen, wv.copy(), tol)
+    psd.judge_check_sdp(j, wv, tol, r2, e2)
+    if wv.max() > 0:
+      Vq = D.random_orthogonal(rng, n_)
+      r3, e3 = _call(_util._pseudo_inverse_from_eig, wv.copy(), Vq, tol)
+      psd.judge_pinv_from_eig(j, wv, Vq, tol, r3, e3)
     j.distinct('cfm', klass, M.shape[0], tol)
     if j.sample is None and klass == 'near':
       j.sample = {'function': 'components_from_metric', 'class': klass,
